@@ -193,18 +193,32 @@ def countScoord3d (tree : Item) : Except ErrKind Nat :=
 
 /-- `_SR.__init__` followed by the class-specific guard.  The verification guard and the SCOORD3D guards
 are the definitions translated from the current source (tie T, `Generated/T15a.lean`). -/
-def buildSR (a : DocArgs) : Except ErrKind Doc := do
-  if a.evidence.isEmpty then throw .value
-  let _ ← Gen.srVerifiedGuard a.verified (!a.hasObserver) (!a.hasOrganization)
-  if a.nRoots ≠ 1 then throw .value
-  let (cur, oth) ← collectEvidence a.evidence a.tree
-  let n ← countScoord3d a.tree
-  let _ ← match a.cls with
-    | .enhanced => Gen.srScoord3dGuardEnhanced (n : Int)
-    | .comprehensive => Gen.srScoord3dGuardComprehensive (n : Int)
-    | .comprehensive3d => Gen.srScoord3dGuardComprehensive3D (n : Int)
-  pure { content := a.tree, current := cur, other := if a.record then oth else [],
-         predecessors := a.previous.map predecessors, verifiedFlag := a.verified }
+def scoord3dGuard (cls : DocClass) (n : Nat) : Except ErrKind Bool :=
+  match cls with
+  | .enhanced => Gen.srScoord3dGuardEnhanced (n : Int)
+  | .comprehensive => Gen.srScoord3dGuardComprehensive (n : Int)
+  | .comprehensive3d => Gen.srScoord3dGuardComprehensive3D (n : Int)
+
+def buildSR (a : DocArgs) : Except ErrKind Doc :=
+  if a.evidence.isEmpty then .error .value else
+  match Gen.srVerifiedGuard a.verified (!a.hasObserver) (!a.hasOrganization) with
+  | .error e => .error e
+  | .ok _ =>
+    if a.nRoots ≠ 1 then .error .value else
+    -- `ContentSequence([content_item], is_root=True)`: the root has no relationship and is a CONTAINER
+    if a.tree.rel.isSome then .error .attribute else
+    if a.tree.vt ≠ "CONTAINER" then .error .type else
+    match collectEvidence a.evidence a.tree with
+    | .error e => .error e
+    | .ok (cur, oth) =>
+      match countScoord3d a.tree with
+      | .error e => .error e
+      | .ok n =>
+        match scoord3dGuard a.cls n with
+        | .error e => .error e
+        | .ok _ =>
+          .ok { content := a.tree, current := cur, other := if a.record then oth else [],
+                predecessors := a.previous.map predecessors, verifiedFlag := a.verified }
 
 /-- `get_evidence(current_procedure_only)` -/
 def getEvidence (d : Doc) (currentOnly : Bool) : List Row :=
@@ -308,34 +322,54 @@ def segFrameLoop (s : Seg) : List Int → LoopAcc → Except ErrKind LoopAcc
          | some u => if u = (src.cls, src.inst) then segFrameLoop s fs { a1 with srcFrames := fr } else .error .value)
       | some _ => .error .value
 
-/-- `ReferencedSegmentationFrame.from_segmentation(segmentation, frame_number, segment_number)` -/
-def refSegFrame (s : Seg) (frames : Option (List Int)) (segment : Option Int) : Except ErrKind SegFrameRef := do
-  if !s.isSeg then throw .value
-  let fnums ← match frames with
-    | some l => pure l
-    | none => match segment with
-      | none => throw .type
-      | some sn =>
-        let l := framesOfSegment s.frames sn
-        if l.isEmpty then throw .value
-        else if l.length > 1 ∧ !s.tiled then throw .value
-        else pure l
-  let a ← segFrameLoop s fnums ⟨[], none, []⟩
-  let source ← match a.srcUids with
-    | some (c, i) => pure (SrcImg.mk c i (if a.srcFrames.isEmpty then none else some a.srcFrames))
-    | none => match s.refSeries with
-      | none => throw .attribute
-      | some _ => match s.refInstances with
-        | none => throw .attribute
-        | some [r] => pure (SrcImg.mk r.cls r.inst none)
-        | some _ => throw .value
+/-- the frame numbers named by the request: given, or all frames of the segment (several only when tiled) -/
+def segFrameNumbers (s : Seg) (frames : Option (List Int)) (segment : Option Int) : Except ErrKind (List Int) :=
+  match frames with
+  | some l => .ok l
+  | none => match segment with
+    | none => .error .type
+    | some sn =>
+      let l := framesOfSegment s.frames sn
+      if l.isEmpty then .error .value
+      else if l.length > 1 ∧ !s.tiled then .error .value
+      else .ok l
+
+/-- the source image: the one found in the frames, else the single instance of the referenced series -/
+def segFrameSource (s : Seg) (a : LoopAcc) : Except ErrKind SrcImg :=
+  match a.srcUids with
+  | some (c, i) => .ok (SrcImg.mk c i (if a.srcFrames.isEmpty then none else some a.srcFrames))
+  | none => match s.refSeries with
+    | none => .error .attribute
+    | some _ => match s.refInstances with
+      | none => .error .attribute
+      | some [r] => .ok (SrcImg.mk r.cls r.inst none)
+      | some _ => .error .value
+
+/-- the one segment all named frames belong to; it must be the requested one when a segment was requested -/
+def segFrameSegment (a : LoopAcc) (segment : Option Int) : Except ErrKind Int :=
   match dedup a.segs [] with
   | [sn] =>
-    match segment with
-    | some want => if sn = want then pure ⟨s.cls, s.inst, fnums, sn, source⟩ else throw .value
-    | none => pure ⟨s.cls, s.inst, fnums, sn, source⟩
-  | [] => throw .index
-  | _ => throw .value
+    (match segment with
+     | some want => if sn = want then .ok sn else .error .value
+     | none => .ok sn)
+  | [] => .error .index
+  | _ => .error .value
+
+/-- `ReferencedSegmentationFrame.from_segmentation(segmentation, frame_number, segment_number)` -/
+def refSegFrame (s : Seg) (frames : Option (List Int)) (segment : Option Int) : Except ErrKind SegFrameRef :=
+  if !s.isSeg then .error .value else
+  match segFrameNumbers s frames segment with
+  | .error e => .error e
+  | .ok fnums =>
+    match segFrameLoop s fnums ⟨[], none, []⟩ with
+    | .error e => .error e
+    | .ok a =>
+      match segFrameSource s a with
+      | .error e => .error e
+      | .ok source =>
+        match segFrameSegment a segment with
+        | .error e => .error e
+        | .ok sn => .ok ⟨s.cls, s.inst, fnums, sn, source⟩
 
 structure SegmentRef where
   cls : String
